@@ -9,7 +9,7 @@ import ast
 import z3
 
 from .core import (card_fn, BOOL, INT, STR, ClassInfo, ConcreteSeq, Infeasible, LazyContainer, LiveView, Path, PathEnd,
-                   PyExc, Snapshot, SV, SymIter, TDict, TList, TObj, TOpt, TRefBase, TSet, TTuple,
+                   PyExc, Snapshot, SV, SymIter, TAList, TDict, TList, TObj, TOpt, TRefBase, TSet, TTuple,
                    TUn, Ty, Unsupported, _TBool, _TInt, _TStr, class_mro, exc_isinstance,
                    field_type, option_sort, CLASSES)
 from .source import mangle
@@ -211,6 +211,8 @@ class Interp:
                 return self.model.nonempty_set(self, v)
             if isinstance(ty, TList):
                 return z3.Length(p.content(v)) > 0
+            if isinstance(ty, TAList):
+                return ty.length(p.content(v)) > 0
             if isinstance(ty, TObj):
                 for c in class_mro(ty.cls):
                     ci = CLASSES.get(c)
@@ -419,6 +421,7 @@ class Interp:
         if self.depth > 40:
             raise Unsupported("inline recursion too deep")
         env = self.make_env(fn, list(args), dict(kwargs))
+        self.index_loops(fn.node)
         self.depth += 1
         self.cls_stack.append(fn.cls)
         saved_loops, saved_counter = self.loops, self.loop_counter
@@ -436,6 +439,7 @@ class Interp:
     def run_function(self, fn: PyFunc, args, kwargs):
         """Top-level execution of the function under verification (may be a generator)."""
         env = self.make_env(fn, list(args), dict(kwargs))
+        self.index_loops(fn.node)
         self.cls_stack.append(fn.cls)
         try:
             self.exec_block(fn.node.body, env)
@@ -684,9 +688,24 @@ class Interp:
         env[s.name] = self.model.nested_function(self, f)
 
     # ------------------------------------------------------------------ loops
+    def loop_ordinal(self, s):
+        """static ordinal of a loop: its position among the loops of the enclosing function in source order"""
+        m = getattr(self, "_loop_ords", None)
+        if m is None or id(s) not in m:
+            raise Unsupported("loop outside a known function body")
+        return m[id(s)]
+
+    def index_loops(self, fnode):
+        loops = [n for n in _walk_no_nested(fnode) if isinstance(n, (ast.For, ast.While))]
+        loops.sort(key=lambda n: (n.lineno, n.col_offset))
+        prev = getattr(self, "_loop_ords", None) or {}
+        prev = dict(prev)
+        for i, n in enumerate(loops):
+            prev[id(n)] = i
+        self._loop_ords = prev
+
     def s_While(self, s, env):
-        ordinal = self.loop_counter
-        self.loop_counter += 1
+        ordinal = self.loop_ordinal(s)
         # concrete-condition loops are unrolled as long as the test stays concrete
         spec = self.loops.get(ordinal)
         if spec is None:
@@ -788,6 +807,8 @@ class Interp:
                     p.pc_tags[cj.get_id()] = "member"
                 if it.distinct is True:
                     p.assume(z3.Not(done[x]))
+                elif z3.is_expr(it.distinct):
+                    p.assume(z3.Implies(it.distinct, z3.Not(done[x])))
                 self.assign(s.target, it.elem(self, x), env)
             else:
                 e = z3.Const(p.fresh_name("e"), es)
@@ -819,8 +840,7 @@ class Interp:
             self.exec_block(s.orelse, env)
 
     def s_For(self, s, env):
-        ordinal = self.loop_counter
-        self.loop_counter += 1
+        ordinal = self.loop_ordinal(s)
         itv = self.eval(s.iter, env)
         p = self.path
         # --- concrete sequences: unroll
@@ -939,6 +959,16 @@ class Interp:
         if isinstance(v, SV) and isinstance(v.ty, TList):
             seq = p.content(v)
             return Interp.IterDescr(v.ty.v, lambda e, seq=seq: z3.Contains(seq, z3.Unit(e)), False, live=v)
+        if isinstance(v, SV) and isinstance(v.ty, TAList):
+            c = p.content(v)
+            n, arr = v.ty.length(c), v.ty.elems(c)
+
+            def mem(e, n=n, arr=arr):
+                i = z3.Int(p.fresh_name("ai"))
+                return z3.Exists([i], z3.And(i >= 0, i < n, arr[i] == e))
+            i1, i2 = z3.Ints("alist_i alist_j")
+            distinct = z3.ForAll([i1, i2], z3.Implies(z3.And(0 <= i1, i1 < i2, i2 < n), arr[i1] != arr[i2]))
+            return Interp.IterDescr(v.ty.v, mem, distinct, live=v)
         r = self.model.iter_descr(self, v)
         if r is not None:
             return r
@@ -1363,7 +1393,7 @@ class Interp:
             obj = p.project(obj.ty, obj.z)
         if obj is None:
             self.raise_("AttributeError", f"'NoneType' object has no attribute '{name}'", node=node)
-        if isinstance(obj, SV) and isinstance(obj.ty, (TDict, TSet, TList)):
+        if isinstance(obj, SV) and isinstance(obj.ty, (TDict, TSet, TList, TAList)):
             return BoundMethod(obj, name, self.container_method(obj, name))
         if isinstance(obj, ClassRef):
             c = self.model.find_method_contract(obj.name, name)
@@ -1478,8 +1508,39 @@ class Interp:
             self.heap_writes += 1
             p.set_content(o, z3.Concat(z3.SubSeq(seq, 0, i), z3.SubSeq(seq, i + 1, z3.Length(seq) - i - 1)))
 
+        def alist_append(it, o, args, kw):
+            self.heap_writes += 1
+            c = p.content(o)
+            n, arr = ty.length(c), ty.elems(c)
+            p.set_content(o, ty.mk(n + 1, z3.Store(arr, n, p.inject(ty.v, args[0]))))
+            p.note_escape(args[0])
+
+        def alist_remove(it, o, args, kw):
+            """list.remove(x): removes the first occurrence, ValueError when absent"""
+            c = p.content(o)
+            n, arr = ty.length(c), ty.elems(c)
+            xz = p.inject(ty.v, args[0])
+            j = z3.Int(p.fresh_name("rj"))
+            present = z3.Exists([j], z3.And(j >= 0, j < n, arr[j] == xz))
+            if not p.choose(present):
+                self.raise_("ValueError", "list.remove(x): x not in list")
+            i = z3.Int(p.fresh_name("ri"))
+            p.assume(z3.And(i >= 0, i < n, arr[i] == xz))
+            p.assume(z3.ForAll([j], z3.Implies(z3.And(j >= 0, j < i), arr[j] != xz)))
+            k = z3.Int(p.fresh_name("rk"))
+            narr = z3.Array(p.fresh_name("removed"), z3.IntSort(), ty.v.sort())
+            # definition of the shifted array, stated in both directions (helps E-matching; consequences of
+            # narr = lambda k. k < i ? arr[k] : arr[k+1])
+            p.assume(z3.ForAll([k], narr[k] == z3.If(k < i, arr[k], arr[k + 1]), patterns=[narr[k]]))
+            p.assume(z3.ForAll([k], z3.Implies(z3.And(k >= 0, k < n, k != i),
+                                               narr[z3.If(k < i, k, k - 1)] == arr[k]), patterns=[arr[k]]))
+            self.heap_writes += 1
+            p.set_content(o, ty.mk(n - 1, narr))
+
         table = {}
-        if isinstance(ty, TDict):
+        if isinstance(ty, TAList):
+            table = {"append": alist_append, "remove": alist_remove, "copy": copy}
+        elif isinstance(ty, TDict):
             table = {"get": dict_get, "keys": dict_keys, "items": dict_items, "values": dict_values,
                      "copy": copy, "pop": dict_pop, "clear": clear}
         elif isinstance(ty, TSet):
